@@ -440,10 +440,12 @@ def r6_chords(ctx):
     ok = kw is not None and len(loops) == 1
     if ok:
         lp = loops[0]
-        calls = [c for c in ast.walk(lp) if isinstance(c, ast.Call) and isinstance(c.func, ast.Attribute) and c.func.attr == 'export'
-                 and F.is_name(c.func.value, lp.target.id)]
-        ok = len(calls) == 1 and len(calls[0].keywords) == 1 and calls[0].keywords[0].arg is None \
-            and F.is_name(calls[0].keywords[0].value, kw) and not calls[0].args
+        # on every path through the loop body: exactly one note.export(**kwargs)
+        for sp in symex.sym_paths(lp.body, fi=ch):
+            calls = [c for c in sp.calls() if isinstance(c.func, ast.Attribute) and c.func.attr == 'export'
+                     and F.is_name(c.func.value, lp.target.id)]
+            ok = ok and len(calls) == 1 and len(calls[0].keywords) == 1 and calls[0].keywords[0].arg is None \
+                and F.is_name(calls[0].keywords[0].value, kw) and not calls[0].args
         ok = ok and not any(isinstance(x, (ast.Break, ast.Continue, ast.Return)) for x in ast.walk(lp))
     ctx.check(ok, 'R6', ch.loc, ch.qualname, 'chord-covers-all-notes',
               'ChordToken.export exports every note of the chord with the same keyword arguments',
